@@ -77,11 +77,15 @@ impl SimpleOpHeadsStore {
     }
 
     fn add_op_head(&self, id: &OperationId) -> Result<(), PathError> {
+        #[cfg(jj_vcs_jj_verif)]
+        crate::verif::point("op_heads.add", &id.hex());
         let path = self.dir.join(id.hex());
         std::fs::write(&path, "").context(path)
     }
 
     fn remove_op_head(&self, id: &OperationId) -> Result<(), PathError> {
+        #[cfg(jj_vcs_jj_verif)]
+        crate::verif::point("op_heads.remove", &id.hex());
         let path = self.dir.join(id.hex());
         std::fs::remove_file(&path)
             .or_else(|err| {
@@ -135,6 +139,8 @@ impl OpHeadsStore for SimpleOpHeadsStore {
     }
 
     async fn get_op_heads(&self) -> Result<Vec<OperationId>, OpHeadsStoreError> {
+        #[cfg(jj_vcs_jj_verif)]
+        crate::verif::point("op_heads.read", "");
         let mut op_heads = vec![];
         for op_head_entry in
             std::fs::read_dir(&self.dir).map_err(|err| OpHeadsStoreError::Read(err.into()))?
